@@ -523,6 +523,9 @@ func (fc *funcCtx) exec(st *State, ins ssa.Instruction) (stop bool) {
 	case *ssa.DebugRef:
 	case *ssa.Alloc:
 		t := deref(x.Type())
+		if isWaitGroup(t) {
+			st.ghost["wg"] = Sc{"0", SInt}
+		}
 		if at, ok := t.Underlying().(*types.Array); ok {
 			n := smtInt(at.Len())
 			st.cells[x] = fc.alloc(st, at.Elem(), n, n, true)
